@@ -47,9 +47,9 @@ Proof. exact main_prefix. Qed.
 Print Assumptions C09_prefix_closed.
 
 (* what the current code still falsifies for Db / DbGrid: a locator rank read from the file is used as a size
-   ('x2000000000': 8 GB requested) and pads the role list with UID 0 ('x3' on a single column: roles [0;0;0]) *)
+   ('x2000000000': 8 GB requested; 'x100001': 400 kB for a 21-byte file) and pads the role list with UID 0 ('x3' on a single column: roles [0;0;0]) *)
 Theorem C09_alloc_bounded_refuted : load_Db (now_env_of w_locsize) w_locsize = Crashed (Throw 1 16) /\
-  alloc_bound (flen w_locsize) < ghost_of (load_Db (now_env_nocap w_locsize) w_locsize).
+  alloc_bound (flen w_locghost) < ghost_of (load_Db (now_env_of w_locghost) w_locghost).
 Proof. exact (conj now_locsize now_locsize_ghost). Qed.
 Print Assumptions C09_alloc_bounded_refuted.
 Theorem C09_wellformed_refuted : exists d g, load_Db (now_env_of w_locrank) w_locrank = Loaded d g /\ ~ wf_db d.
